@@ -9,7 +9,7 @@ pub const ALPHABET: &[(&str, &str)] = &[
     // valid grammar with doc comments in front of a token list and of rules, plus a `part` rule
     (
         "valid-docs-part",
-        "/// tok doc\ntoken A='a' B='b';\npart p;\nstart s;\n/// rule doc\ns: A x?;\n/// x doc\nx: B* 'a';\np: B;\n",
+        "/// tok doc\ntoken A='a' B='b';\npart p;\nstart s;\n/// rule doc\ns: A [x];\n/// x doc\nx: B* 'a';\np: B;\n",
     ),
     // Pratt rule (left recursion + `right`), no trailing newline
     ("pratt", "token N P='+';\nright P;\nstart e;\ne: e P e | e '+' N | N;"),
@@ -21,6 +21,8 @@ pub const ALPHABET: &[(&str, &str)] = &[
     ("ll1-conflict", "token A B;\nstart s;\ns: A B | A;\n"),
     // half-typed fragments
     ("frag-token", "token ;"),
+    // the same fragment typed into an otherwise complete grammar
+    ("frag-token-in-grammar", "token ;\nstart s;\ns: A;\n"),
     ("frag-rule", "s:"),
     ("frag-paren", "token A; start s; s: ("),
     ("empty", ""),
